@@ -55,6 +55,13 @@ type upload struct {
 	Invoke  int
 	Return  int
 	AllocAt int // allocation count at invocation
+	// at the instant the store's Put returned (before the harness waits for
+	// siblings): allocation count, detections
+	// detections at the instant the upload's source was closed by its
+	// consumer (at invocation for byte slices and stream clones): what was
+	// detected before the body had been consumed
+	BodyDetections           int
+	RetAllocs, RetDetections int
 }
 
 type storeModel struct {
@@ -313,8 +320,9 @@ func (w *storeWorld) doPut(op *storeOp) {
 	m := w.m
 	o := m.objs[op.Obj]
 	d := m.digestOf(o, op.Inst)
-	u := &upload{Obj: op.Obj, Inst: op.Inst, Invoke: w.seq(), AllocAt: w.allocs()}
+	u := &upload{Obj: op.Obj, Inst: op.Inst, Invoke: w.seq(), AllocAt: w.allocs(), BodyDetections: len(w.e.detections)}
 	var b buffer.Buffer
+	var bodySrc *sim.SrcStats
 	if m.cfg.AC {
 		m.nextTag++
 		u.Tag = m.nextTag
@@ -374,10 +382,12 @@ func (w *storeWorld) doPut(op *storeOp) {
 		case ctorReader:
 			src := sim.NewReaderSource("put", script)
 			w.srcStats = append(w.srcStats, src.St)
+			bodySrc = src.St
 			b = buffer.NewCASBufferFromReader(d, src, buffer.UserProvided)
 		default:
 			src := sim.NewChunkSource("put", script)
 			w.srcStats = append(w.srcStats, src.St)
+			bodySrc = src.St
 			b = buffer.NewCASBufferFromChunkReader(d, src, buffer.UserProvided)
 		}
 	}
@@ -404,8 +414,11 @@ func (w *storeWorld) doPut(op *storeOp) {
 			}
 		})
 		w.c.Count("probe_upload_via_stream_clone", 1)
+	} else if bodySrc != nil {
+		bodySrc.OnClose = func() { u.BodyDetections = len(w.e.detections) }
 	}
 	err := w.e.ba.Put(w.ctx, d, b)
+	u.RetAllocs, u.RetDetections = w.allocs(), len(w.e.detections)
 	w.s.WaitUntil("upload sibling", func() bool { return siblingDone })
 	u.Return = w.seq()
 	if err == nil {
